@@ -32,6 +32,16 @@ T4More == T4Core \cup {L3("1", "0", "0"), L3("0", "0", "0"), L3("3", "0", "0"), 
                        L2("-", "1"), L3("1", "_", "0"), <<>>, L1("-"),
                        <<":", ":", "f", "f", "f", "f", ":", "1">>, L2("2", "5")}
 
+(* IPv6-literal-shaped labels: ':' and '%' are legal in domain-name labels, and a  *)
+(* body such as ::ffff:4.3.2.1, ::ffff:4.3.2.1%eth0 or 0:0:0:0:0:ffff:403:201 is   *)
+(* what an address parser behind the IPv4 decoder would take for 4.3.2.1.         *)
+T4Lit == {L1("4"), L1("1"),
+          <<":", ":", "f", "f", "f", "f", ":", "4">>,
+          <<"1", "%", "e", "t", "h", "0">>,
+          <<"0", ":", "0", ":", "0", ":", "0", ":", "0", ":", "f", "f", "f", "f", ":", "4", "0", "3", ":", "2", "0", "1">>,
+          <<":", ":", "f", "f", "f", "f", ":", "4", "0", "3", ":", "2", "0", "1">>}
+T6Lit == {L1("4"), L1("a"), <<":", ":", "a">>, <<"a", "%", "e", "t", "h", "0">>, <<":", ":">>, <<"a", ":", "b">>}
+
 T6Small == {L1("0"), L1("a"), L1("F"), L1("g"), L2("a", "b"), L2("1", "0")}
 T6Core == T6Small \cup {L1("7"), L1("f"), L1("A"), L1("x"), L2("a", "a"), L1("-"), L3("a", "b", "c")}
 T6Medium == T6Small \cup {L1("7"), L1("f"), L1("x"), L2("a", "a")}
@@ -43,6 +53,7 @@ Table(side, tab) ==
       [] tab = "core" -> IF side = 4 THEN T4Core ELSE T6Core
       [] tab = "medium" -> IF side = 4 THEN T4Medium ELSE T6Medium
       [] tab = "more" -> IF side = 4 THEN T4More ELSE T6More
+      [] tab = "lit" -> IF side = 4 THEN T4Lit ELSE T6Lit
 
 ----------------------------------------------------------------------------
 (* Suffix shapes.  Shape 1 of each side is the true suffix. *)
@@ -168,6 +179,8 @@ Configs(side) ==
     \* leading labels (extraction)
     \cup {Plain(side, 1, ld, 0, VarTab, VarMax) : ld \in LeadSet}
     \cup {Plain(side, sh, ld, d, "small", 2) : sh \in {2, 4}, ld \in LeadSet \cap {2, 6, 10, 11, 14}, d \in 0..1}
+    \* IPv6-literal-shaped bodies (mapped, zoned, fully expanded) before the suffix
+    \cup {Plain(side, sh, 1, d, "lit", IF side = 4 THEN 4 ELSE 2) : sh \in {1, 2}, d \in 0..1}
     \* ACE aliases: each of the last labels (suffix labels and the body labels next to them)
     \* replaced by its "xn--<label>-" form
     \cup {WithAce(Plain(side, sh, ld, d, VarTab, VarMax), j) :
